@@ -557,7 +557,8 @@ bool build_x86_function(x86::Compiler& cc, const FuncParams& fp, RecordingHandle
         if (fp.consts) {
           uint64_t c = r.next();
           x86::Mem m = cc.new_const((fp.global_consts && r.chance(1, 2)) ? ConstPoolScope::kGlobal : ConstPoolScope::kLocal, &c, is64 ? 8 : 4);
-          if (eh.first != Error::kOk) return false;
+          // (a failed new_const() is reported through the operand it returns: a reset, i.e. "none", memory operand)
+          if (eh.first != Error::kOk || !m.has_base_label()) return false;
           CK(cc.add(any(), m));
         }
         if (fp.vec) { if (avx) { CK(cc.vpaddd(vec0, vec0, vec1)); CK(cc.vmovd(any().r32(), vec0)); } else { CK(cc.paddd(vec0, vec1)); CK(cc.movd(any().r32(), vec0)); } }
